@@ -126,7 +126,7 @@ theorem execLoop_spec (hash : Tuple → Nat) (ord : String → List Tuple → Li
     | none => rw [hev] at hrun; simp at hrun
     | some ts =>
       rw [hev] at hrun
-      simp only [limited_allOff, Bool.false_eq_true, if_false] at hrun
+      simp only [limited_allOff, Bool.and_false, Bool.false_eq_true, if_false] at hrun
       obtain ⟨hframe, hfix, hlast⟩ := execLoop_spec hash ord fuel p edb hcf hagg rest (h :: seen) ((h, ts) :: acc) ts A acc'
         hdrest (fun g hg => hheads g (List.mem_cons_of_mem _ hg)) hrun
       have hnotrest : h ∉ rest := depOrdered_head_not_in_rest p h rest seen hd
@@ -402,49 +402,19 @@ theorem clauseFaithful_sameRules {p p' : Program} (h : sameRules p p') (hcf : Cl
 
 /-! ### simple rules are evaluated faithfully -/
 
-/-- no aggregate, no comparison literal, no wildcard in a positive atom. -/
+/-- no aggregate, no comparison literal. -/
 def simpleRule (r : Rule) : Bool :=
   !r.hasAgg && r.body.all (fun
-    | .pos a => !a.args.contains .wild
+    | .pos _ => true
     | .neg _ => true
     | .cmp .. => false)
 
-
-theorem renameWild_id (rel : String) : ∀ (i : Nat) (args : List Term), args.contains .wild = false →
-    renameWild rel i args = args
-  | _, [], _ => rfl
-  | i, t :: ts, h => by
-    have h' : ¬ (Term.wild = t ∨ Term.wild ∈ ts) := by simpa using h
-    have ht : ts.contains .wild = false := by
-      simpa using fun hc => h' (Or.inr hc)
-    cases t with
-    | wild => exact absurd (Or.inl rfl) h'
-    | var x => simp [renameWild, renameWild_id rel (i + 1) ts ht]
-    | const v => simp [renameWild, renameWild_id rel (i + 1) ts ht]
 
 theorem map_eq_self {α} (f : α → α) : ∀ (l : List α), (∀ x, x ∈ l → f x = x) → l.map f = l
   | [], _ => rfl
   | x :: xs, h => by
     simp only [List.map_cons]
     rw [h x (List.mem_cons_self ..), map_eq_self f xs (fun y hy => h y (List.mem_cons_of_mem _ hy))]
-
-theorem quirkWild_id (r : Rule) (h : simpleRule r = true) : quirkWild r = r := by
-  unfold quirkWild
-  have : r.body.map quirkLit = r.body := by
-    unfold simpleRule at h
-    rw [Bool.and_eq_true, List.all_eq_true] at h
-    replace h := h.2
-    have hb : ∀ l, l ∈ r.body → quirkLit l = l := by
-      intro l hl
-      have := h l hl
-      cases l with
-      | pos a =>
-        simp only [Bool.not_eq_true'] at this
-        simp only [quirkLit, renameWild_id a.rel 0 a.args this]
-      | neg a => rfl
-      | cmp o x y => cases this
-    exact map_eq_self quirkLit r.body hb
-  rw [this]
 
 theorem cmps_nil_of_simple (r : Rule) (h : simpleRule r = true) : r.cmps = [] := by
   unfold simpleRule at h
@@ -501,9 +471,8 @@ theorem evalRuleM_eq_of_simple (r : Rule) (h : simpleRule r = true) (lk : String
     rw [Bool.and_eq_true] at h
     simpa using h.1
   unfold evalRuleM bodyEnvsM evalRuleLk bodyEnvs headOf headOfSpec
-  simp only [quirkWild_id r h, hc, buildCmps, pass1, List.map_nil, List.nil_append, List.filter_nil, List.all_nil, List.any_nil,
-    Bool.false_eq_true, if_false, List.isEmpty_nil, Bool.and_true, if_true, pushPlan_nil, withFilters,
-    evalPosF_trivial, applyCols_nil, optMapM_some_id, Option.isSome_none, filter_const_true,
+  simp only [hc, buildCmps, pass1, List.map_nil, List.nil_append, List.filter_nil, List.all_nil, List.any_nil,
+    Bool.false_eq_true, if_false, List.isEmpty_nil, Bool.and_true, if_true, applyCols_nil, optMapM_some_id, Option.isSome_none, filter_const_true,
     specCmps, List.length_nil, map_id_env, hna]
 
 
